@@ -257,6 +257,12 @@ pub fn read_tokens<R: CharRead>(lexer: &mut Lexer<'_, R>) -> Result<Vec<Token>, 
                 return Err(lexer.incomplete_reduction());
             }
             Err(e) => {
+                // the rest of a clause with a lexical error is not the start
+                // of another clause: the next read begins after its end token.
+                if !e.is_unexpected_eof() {
+                    lexer.skip_to_end_token();
+                }
+
                 return Err(e);
             }
         }
